@@ -276,7 +276,7 @@ def exec_guess_all(trace, ctx):
         r1 = _residue(l1)
         for l2 in range(1, 41):
             r2 = _residue(l2, prefix="N")
-            for off1, off2 in ((0, 0), (7, 3)):
+            for off1, off2 in ((0, 0), (7, 3), (3, 7), (0, 11)):
                 try:
                     pairs = guess_residue_restrains(r1, r2, off1, off2)
                 except Exception as e:
